@@ -33,6 +33,7 @@ def run(repo, tier):
     out += dls.halves_rule(repo)
     out += dls.hypothetical_rule(repo)
     out += dls.processing_rule(repo)
+    out += dls.maxpool_rule(repo)
     return out
 
 
